@@ -69,6 +69,7 @@ class Runtime:
         self.ev_calls = 0
         self.save_calls = 0
         self.dest_start = {}
+        self.act = 0
 
     def reset(self, loop, runs, virtual=True, collab=None, jitter=None):
         self.loop = loop
@@ -143,7 +144,7 @@ class Runtime:
             key = (run, nid, kw)
             k = self.attempts.get(key, 0) + 1
             self.attempts[key] = k
-        self.log(e='BodyStart', r=run, n=nid, kw=kw, k=k, t=self.now_ms())
+        self.log(e='BodyStart', r=run, n=nid, kw=kw, k=k, t=self.now_ms(), act=self.act)
         return run, kw, k
 
     def outcome(self, run, nid, kw, k):
@@ -166,11 +167,15 @@ class Runtime:
             ex = EXC[cls](tok)
             with self.lock:
                 self.raised[tok] = ex
-            self.log(e='BodyEnd', r=run, n=nid, kw=kw, k=k, out=('raise', tok), t=self.now_ms())
+            self.log(e='BodyEnd', r=run, n=nid, kw=kw, k=k, out=('raise', tok), t=self.now_ms(), act=self.act)
             raise ex
         if o.startswith('rec:'):
             data = ('data', nid, int(o.split(':')[1]))
-            self.log(e='BodyEnd', r=run, n=nid, kw=kw, k=k, out=('rec', data), t=self.now_ms())
+            if nid in self.runs[run].get('recfalsy', ()):
+                # a falsy payload is still a payload: the start node must receive it
+                self.log(e='BodyEnd', r=run, n=nid, kw=kw, k=k, out=('rec', ('falsy',)), t=self.now_ms(), act=self.act)
+                return Recurrent(data=0)
+            self.log(e='BodyEnd', r=run, n=nid, kw=kw, k=k, out=('rec', data), t=self.now_ms(), act=self.act)
             return Recurrent(data=data)
         if o == 'ok':
             val = ('v', nid + '!reused-instance' if reused else nid, kw)
@@ -184,7 +189,7 @@ class Runtime:
             val = ('s', ret)
         else:
             raise RuntimeError('bad plan outcome %r' % o)
-        self.log(e='BodyEnd', r=run, n=nid, kw=kw, k=k, out=('ok', val), t=self.now_ms())
+        self.log(e='BodyEnd', r=run, n=nid, kw=kw, k=k, out=('ok', val), t=self.now_ms(), act=self.act)
         return ret
 
     async def body_async(self, nid, kwargs, reused=False):
